@@ -43,6 +43,25 @@ CLAIMED = {
             "returns' is, at run time, an implementation-vs-implementation bitwise comparison in the oracle (49 queries "
             "per object); in Coq it is the equality of the constructed records. NaN scores excluded.",
             "Coq proof + ast-regenerated tie lemmas (all inputs) + vm_compute correspondence + differential oracle"),
+    "C20": ("7/C20",
+            "Coq theorems about the model of experimental/datasets.py with scipy.stats.norm.{cdf,ppf,sf,isf} and np.sqrt as "
+            "universally quantified functions: under the stated oracle hypotheses (cdf/ppf and sf/isf mutually inverse, "
+            "sf = 1 - cdf) fnr(threshold_at_fnr x) = x, threshold_at_fnr(fnr t) = t and the same for fpr; roc() rates = "
+            "analytic rates at its thresholds, ValueError unless exactly one of fnr/fpr; from_metrics: fnr(0), fpr(0) = "
+            "requested, n = floor(fs/fnr) + floor(ps/fpr), p_pos = nb_pos/n; sample(): sizes, direction and RNG call "
+            "parameters over every draw history within numpy's contract; Bernoulli non-random count = floor(n*p) for "
+            "every shuffle; correlated pair: probabilities sum to 1 with marginals p1, p2, ValueError iff some probability "
+            "< 0, non-random sample of shape (2,n), 0/1 values, both marginal counts in [n*p_i, n*p_i + 2) for every "
+            "shuffle and every sqrt function; model tied to the source by model-vs-implementation correspondence with "
+            "recorded RNG draws and SciPy values supplied at the exact arguments the model asks for",
+            "correspondence-only tie (no regenerated fragment). The theorems are conditional on the oracle hypotheses "
+            "about SciPy's normal distribution functions (not proved; float cdf(ppf(x)) = x is checked to 1e-9 relative by "
+            "the oracle on the implementation). Exact-rational model: floor(n*p) is compared exactly unless n*p is within "
+            "1e-9 relative of an integer and the float product is inexact (the property's own hedge; then +-1 accepted by "
+            "the oracle and the case left out of the model comparison). The correlation actually realised by the joint "
+            "distribution is not part of the property and not checked by the oracle (the model comparison pins the sign of "
+            "the rho term).",
+            "Coq proof (Section variables for external functions, draw histories) + vm_compute correspondence + exact-Fraction oracle"),
 }
 PENDING = {}
 
